@@ -8,7 +8,7 @@ CVC5 = '/usr/bin/cvc5'
 CVC5_TIMEOUT_S = 30
 
 
-def cvc5_check(pc, negated_goal):
+def cvc5_check(pc, negated_goal, timeout_s=None):
     """returns 'unsat' | 'sat' | 'unknown'"""
     if not os.path.exists(CVC5):
         return 'unknown'
@@ -21,12 +21,13 @@ def cvc5_check(pc, negated_goal):
     except Exception:
         return 'unknown'
     text = '(set-logic ALL)\n' + text
+    tl = timeout_s or CVC5_TIMEOUT_S
     with tempfile.NamedTemporaryFile('w', suffix='.smt2', delete=False, dir=os.environ.get('PYVC_SCRATCH', '/var/tmp')) as f:
         f.write(text)
         path = f.name
     try:
-        r = subprocess.run([CVC5, '--strings-exp', '--tlimit=%d' % (CVC5_TIMEOUT_S * 1000), path],
-                           capture_output=True, text=True, timeout=CVC5_TIMEOUT_S + 10)
+        r = subprocess.run([CVC5, '--strings-exp', '--tlimit=%d' % (tl * 1000), path],
+                           capture_output=True, text=True, timeout=tl + 10)
         out = r.stdout.strip().split('\n')[0] if r.stdout.strip() else ''
         if out in ('unsat', 'sat'):
             return out
